@@ -79,7 +79,8 @@ CHECKS['C04'] = dict(
                                  'ld --wrap replaces only the AesGenerator4R call made by VmBase::generateProgram'],
     stages=[
         dict(name='jit', harness=H('c04', ['harness/c04_jit.cpp'], ldflags=PROG_LD),
-             plan={'quick': 'jit_vs_interp=12000,jit_light=1500', 'thorough': 'jit_vs_interp=300000,jit_light=30000'}),
+             plan={'quick': 'jit_vs_interp=12000,jit_light=1500', 'thorough': 'jit_vs_interp=300000,jit_light=30000'},
+             env={'VERIF_CASE_TIMEOUT': '60'}, replay_timeout=150),   # one case = one program (ms); a hang is reported after 60 s, not 300 s
         dict(name='fuzz', kind='fuzz', target='jit', harness=H('fz_jit', ['fuzz/fuzz_jit_vs_interp.cpp'], variant='fuzz', ldflags=PROG_LD), max_len=3216,
              runs={'quick': 8000, 'thorough': 600000}),
     ],
@@ -98,7 +99,8 @@ CHECKS['C07'] = dict(
         dict(name='branch', harness=H('c07', ['harness/c07_branch.cpp'], cflags=['-fno-access-control']),
              plan={'quick': 'arith=12000000,structure=60000,dynamic=60000', 'thorough': 'arith=200000000,structure=1000000,dynamic=1000000'}),
         dict(name='jit', harness=H('c04', ['harness/c04_jit.cpp'], ldflags=PROG_LD),
-             plan={'quick': 'branchy=8000', 'thorough': 'branchy=200000'}, timeout={'quick': 1800, 'thorough': 6 * 3600}),
+             plan={'quick': 'branchy=8000', 'thorough': 'branchy=200000'}, timeout={'quick': 1800, 'thorough': 6 * 3600},
+             env={'VERIF_CASE_TIMEOUT': '60'}, replay_timeout=150),   # a non-terminating JIT program is the violation here: 60 s per-case watchdog
     ],
 )
 
